@@ -70,8 +70,9 @@ def R(expr=(), stmt=(), **kw):
     kw.setdefault("ret", "{e}")
     kw.setdefault("raise_", None)
     kw.setdefault("float_", _float)
-    kw.setdefault("binop", {P.ast.Div: "({a} / {b})"})
-    return P.Rules2M(expr=expr, stmt=stmt, **kw)
+    binop = {P.ast.Div: "({a} / {b})", P.ast.MatMult: "(mul {a} {b})"}     # `/` and `@`; `+ - *` are the defaults
+    binop.update(kw.pop("binop", None) or {})
+    return P.Rules2M(expr=expr, stmt=stmt, binop=binop, **kw)
 
 
 def _fn(cls, name):
@@ -100,10 +101,26 @@ class T(P.Translator2M):
     side (`= None, None`) is split directly;
     `a, b, c = <call that may raise>` (bind first, then take apart); `a.x += e` on an attribute;
     `for x in <lvalue>: <in-place statements on x>` = the lvalue is re-bound to the list of the updated elements;
-    a generator expression handed to a consumer (`sum(p for p in l)`) is the list of its values."""
+    a generator expression handed to a consumer (`sum(p for p in l)`) is the list of its values;
+    a call WITHOUT a rule to a function of the same module / a method of the same class (a helper that a refactoring
+    extracted) is translated with the caller's rules and inlined at the call site;
+    names without a letter (`_`) get a Lean identifier."""
 
     _k = 0
     _inplace_map = _inplace_map
+
+    @staticmethod
+    def fresh(name, scope):
+        # `_` (an ignored component of a tuple) and other names without a letter still need a Lean identifier
+        base = name.replace("_", "") or "w"
+        if not base[0].isalpha():
+            base = "w" + base
+        used = set(scope.values())
+        k, cand = 0, base + "0"
+        while cand in used:
+            k += 1
+            cand = "%s%d" % (base, k)
+        return cand
 
     def expr(self, node, scope):
         try:
@@ -111,7 +128,118 @@ class T(P.Translator2M):
         except P.Untranslatable:
             if isinstance(node, P.ast.GeneratorExp):      # a generator consumed once (`sum(x for ..)`) is the list
                 return self.comprehension(node, scope, "list"), ""
+            if isinstance(node, P.ast.Call):
+                inl = self._inline_call(node, scope)
+                if inl is not None:
+                    return inl, ""
             raise
+
+    # ---- helpers that a refactoring extracted: a call without a rule to a function of the same module / a method of
+    # ---- the same class is translated with the caller's rules and inlined at the call site (pure helpers that return)
+    _fn_stack = ()
+
+    def function(self, fn, arg_names, ind=2, allow_unused=()):
+        old = self._fn_stack
+        self._fn_stack = old + (fn,)
+        try:
+            return P.Translator2M.function(self, fn, arg_names, ind=ind, allow_unused=allow_unused)
+        finally:
+            self._fn_stack = old
+
+    def _resolve_callee(self, func):
+        """(python function, lean text of the receiver or None) for `helper(..)` / `self.helper(..)` / `Cls.helper(..)`"""
+        import inspect
+        import sys
+        if not self._fn_stack:
+            return None
+        cur = self._fn_stack[-1]
+        glob = getattr(cur, "__globals__", {})
+        ast = P.ast
+        if isinstance(func, ast.Name):
+            f = glob.get(func.id)
+            if inspect.isfunction(f) and f.__module__ == cur.__module__:
+                return f, None, False
+            return None
+        if isinstance(func, ast.Attribute) and isinstance(func.value, ast.Name):
+            qual = getattr(cur, "__qualname__", "")
+            if "." not in qual:
+                return None
+            owner = getattr(sys.modules.get(cur.__module__), qual.split(".")[0], None)
+            if owner is None:
+                return None
+            if func.value.id in ("self", "cls") or func.value.id == owner.__name__:
+                raw = None
+                for k in owner.__mro__:
+                    if func.attr in k.__dict__:
+                        raw = k.__dict__[func.attr]
+                        break
+                if raw is None or getattr(getattr(raw, "__func__", raw), "__module__", None) != cur.__module__:
+                    return None
+                static = isinstance(raw, staticmethod)
+                f = getattr(raw, "__func__", raw)
+                if not inspect.isfunction(f):
+                    return None
+                return f, (None if static else func.value), static
+        return None
+
+    def _inline_call(self, node, scope):
+        ast = P.ast
+        if len(self._fn_stack) > 3:
+            return None
+        r = self._resolve_callee(node.func)
+        if r is None:
+            return None
+        f, recv, _static = r
+        if f in self._fn_stack:
+            return None                                   # recursion is the caller's business (a rule)
+        cnode, _src = P.source_ast(f)
+        a = cnode.args
+        if a.vararg or a.kwarg or a.kwonlyargs or a.posonlyargs:
+            return None
+        params = [x.arg for x in a.args]
+        sc = {}
+        if recv is not None:
+            if not params:
+                return None
+            sc[params[0]] = self.pure(recv, scope)
+            params = params[1:]
+        if len(node.args) > len(params):
+            return None
+        given = {}
+        for p_, v_ in zip(params, node.args):
+            given[p_] = v_
+        for kw_ in node.keywords:
+            if kw_.arg is None or kw_.arg not in params or kw_.arg in given:
+                return None
+            given[kw_.arg] = kw_.value
+        defaults = dict(zip(params[len(params) - len(a.defaults):], a.defaults))
+        for p_ in params:
+            if p_ in given:
+                sc[p_] = self.pure(given[p_], scope)
+            elif p_ in defaults:
+                sc[p_] = self.pure(defaults[p_], scope)
+            else:
+                return None
+        # keep the caller's names out of the helper's way: helper locals are made fresh against both scopes
+        shadow = dict(scope)
+        shadow.update(sc)
+        old = self._fn_stack
+        self._fn_stack = old + (f,)
+        saved = (self.r.ret, self.r.raise_, self.r.raise_by, self.r.end)
+        # the helper's value is used as an operand: it returns the bare value and may not raise
+        self.r.ret, self.r.raise_, self.r.raise_by, self.r.end = "{e}", None, {}, None
+        try:
+            def _exit(v, s_, i):
+                if v is None:
+                    raise P.Untranslatable("helper %s may raise" % f.__name__)
+                return "  " * i + v
+            ctx = P._Ctx(exit_=_exit,
+                         end=lambda s_, i: (_ for _ in ()).throw(P.Untranslatable("helper %s falls off its end" % f.__name__)))
+            body = self.block(list(cnode.body), shadow, 0, ctx)
+        finally:
+            self._fn_stack = old
+            self.r.ret, self.r.raise_, self.r.raise_by, self.r.end = saved
+        return "(" + body.replace("\n", "\n  ") + ")"
 
     def _block1(self, stmts, scope, ind, ctx):
         ast = P.ast
@@ -134,6 +262,20 @@ class T(P.Translator2M):
             load = ast.parse(ast.unparse(st.target), mode="eval").body
             new = ast.Assign(targets=[st.target], value=ast.BinOp(left=load, op=st.op, right=st.value))
             return self.block([ast.fix_missing_locations(new)] + list(stmts[1:]), scope, ind, ctx)
+        # `for x in IT: L.append(E)`  ->  L = L + [E for x in IT]   (the loop and the comprehension are one canonical form)
+        if (isinstance(st, ast.For) and not st.orelse and len(st.body) == 1 and isinstance(st.body[0], ast.Expr)
+                and isinstance(st.body[0].value, ast.Call) and isinstance(st.body[0].value.func, ast.Attribute)
+                and st.body[0].value.func.attr == "append" and isinstance(st.body[0].value.func.value, ast.Name)
+                and st.body[0].value.func.value.id in scope and len(st.body[0].value.args) == 1
+                and not st.body[0].value.keywords):
+            lst = st.body[0].value.func.value.id
+            comp = ast.ListComp(elt=st.body[0].value.args[0],
+                                generators=[ast.comprehension(target=st.target, iter=st.iter, ifs=[], is_async=0)])
+            val = "(List.append %s %s)" % (scope[lst], self.comprehension(ast.fix_missing_locations(comp), scope, "list"))
+            fresh = self.fresh(lst, scope)
+            sc = dict(scope)
+            sc[lst] = fresh
+            return "%slet %s := %s\n%s" % ("  " * ind, fresh, val, self.block(list(stmts[1:]), sc, ind, ctx))
         # `for x in <lvalue>: <statements that only update x in place>`  ->  <lvalue> = [updated x for x in <lvalue>]
         if isinstance(st, ast.For):
             m = self._inplace_map(st, list(stmts[1:]), scope, ind, ctx)
@@ -157,7 +299,8 @@ HOBJ = [("$s.source", "({s}).source"), ("$s.target", "({s}).target"),
         ("$s.rotation", "({s}).rotation"), ("$s.allow_mirror", "({s}).allowMirror")]
 SHAPE = [("$x.centre()", "(genPointCloudCentre {x})"), ("$x.norm()", "(genPointCloudNorm ext {x})"),
          ("$x.n_dims", "(nDims {x})")]
-LINALG = [("np.dot($a, $b)", "(mul {a} {b})"), ("$a.T", "(tr {a})")]
+# one word for the matrix product however it is spelled (np.dot / .dot / @ - the last through the `@` operator rule)
+LINALG = [("np.dot($a, $b)", "(mul {a} {b})"), ("$a.dot($b)", "(mul {a} {b})"), ("$a.T", "(tr {a})")]
 
 
 def items():
@@ -180,8 +323,8 @@ def items():
         out.append((sig, thunk, stub))
 
     # ------------------------------------------------------------------ shape/pointcloud.py
-    shp = R(expr=[("np.mean($s.points, axis=0)", "(centroid {s})"),
-                  ("np.linalg.norm($s.points - $s.centre(), **$kw)", "(ext.frob (centred {s}))")])
+    shp = R(expr=POINTS + [("np.mean($x, axis=0)", "(centroid {x})"), ("$s.centre()", "(genPointCloudCentre {s})"),
+                           ("np.linalg.norm($x, **$kw)", "(ext.frob {x})")])
     add("def genPointCloudCentre {n d : Nat} (self : Mat n d) : Vec d :=",
         lambda: T(shp).function(_fn(PointCloud, "centre"), {"self": "self"}, ind=1), "fun _ => 0")
     add("def genPointCloudNorm {n d : Nat} (ext : Ext) (self : Mat n d) : Rat :=",
@@ -192,7 +335,7 @@ def items():
         ("$s.apply($x)", "(ops.apply {s} {x})"),
         ("$s.aligned_source()", "(genAlignedSource ops {s})"),
         ("$s._new_target_from_state()", "(genNewTargetFromState ops {s})"),
-        ("np.linalg.norm($a - $b)", "(ext.frob (msub {a} {b}))")],
+        ("np.linalg.norm($x)", "(ext.frob {x})")],
         stmt=[("$s._verify_source_and_target($a, $b)", "s", "{s}"),       # dimensions agree by typing
               ("$s._verify_target($t)", "s", "{s}"),
               ("$s._source = $v", "s", "(ops.setSource {s} {v})"),
@@ -239,7 +382,7 @@ def items():
     # ------------------------------------------------------------------ translation.py
     def translation_rules():
         pure_setter(tr.AlignmentTranslation)
-        return R(expr=HOBJ + SHAPE + [("$a.centre() - $b.centre()", "(vsub (genPointCloudCentre {a}) (genPointCloudCentre {b}))")],
+        return R(expr=HOBJ + SHAPE,
                  stmt=[homog_init_stmt(),
                        ("Translation.__init__($s, $v)", "s", "(HObj.setH {s} (translationH {v}))"),
                        ("$s.h_matrix[:-1, -1] = $v", "s", "(HObj.setH {s} (setTransCol ({s}).h {v}))")],
@@ -303,7 +446,7 @@ def items():
     # ------------------------------------------------------------------ rotation.py
     kabsch = R(expr=POINTS + LINALG + [
         ("np.linalg.svd($m)", "(ext.svd {m})"), ("np.linalg.det($m)", "(det {m})"), ("np.sign($x)", "(signQ {x})"),
-        ("np.eye($u.shape[0])", "(eyeLike {u})")],
+        ("$u.shape[0]", "(rowsOf {u})"), ("np.eye($k)", "(one : Mat {k} {k})")],
         stmt=[("$e[-1, -1] = $v", "e", "(setLastDiag {e} {v})")])
     add("def genOptimalRotationMatrix %s (source target : Mat n d) (allowmirror : Bool) : Mat d d :=" % HSIG,
         lambda: T(kabsch).function(rot.optimal_rotation_matrix,
@@ -340,7 +483,6 @@ def items():
 
     # ------------------------------------------------------------------ similarity.py
     proc = R(expr=SHAPE + [
-        ("-$x.centre()", "(negV (genPointCloudCentre {x}))"),
         ("Translation($v, skip_checks=True)", "(translationH {v})"),
         ("UniformScale($s, $n, skip_checks=True)", "(scaleH (d := {n}) {s})"),
         ("Similarity.init_identity($n)", "(one : HMat {n})"),
@@ -405,7 +547,8 @@ def items():
     # containment_from_alpha_beta for ONE point: alpha, beta = its rows over the triangle list
     cont = R(expr=[("$a >= 0", "(geZero {a})"), ("$a + $b <= 1", "(sumLeOne {a} {b})"),
                    ("np.logical_and($a, $b)", "(andL {a} {b})"),
-                   ("np.any($x, axis=1)", "(List.any {x} id)"), ("np.any(~$x)", "(!{x})"),
+                   ("np.any($x, axis=1)", "(List.any {x} id)"),
+                   ("~$x", "(!{x})"), ("np.any($x)", "{x}"),        # the mask of ONE query point is a single Boolean
                    ("np.nonzero($x)", "((), nonzeroL {x})"),
                    ("np.zeros($a.shape[0])", "(0 : Nat)"), ("$x.astype(np.uint32)", "{x}")],
              stmt=[("$idx[$pi] = $ti", "idx", "(lastWriteOr {idx} {ti})")],
@@ -500,10 +643,10 @@ def items():
                        ("np.ones([$a, $b])", "(onesM : Mat {a} {b})"), ("np.zeros([$a, $b])", "(zerosM : Mat {a} {b})"),
                        ("$x.T.copy()", "(tr {x})"), ("$x.T", "(tr {x})"),
                        ("np.linalg.svd($m)", "(ext.svd {m})"),
-                       ("$v.shape[0]", "(vlen {v})"), ("sum($v < $t)", "(countBelow {v} {t})"),
-                       ("$u[:, :$k].dot($m)", "(mul (colsTo {k} {u}) {m})"),
-                       ("1.0 / $s[:$k, None] * $v[:$k, :]", "(rowScaleInv {k} {s} {v})"),
-                       ("$a.dot($b)", "(mul {a} {b})"),
+                       ("$v.shape[0]", "(vlen {v})"), ("$v < $t", "(belowV {v} {t})"), ("sum($b)", "(countTrue {b})"),
+                       ("$u[:, :$k]", "(colsTo {k} {u})"), ("$s[:$k, None]", "(ColK.mk {k} {s})"),
+                       ("$v[:$k, :]", "(rowsTo {k} {v})"),
+                       ("$a.dot($b)", "(mul {a} {b})"), ("np.dot($a, $b)", "(mul {a} {b})"),
                        ("$p.shape[1]", "(nDims {p})"),
                        ("$p[..., 0][:, None]", "(colOf {p} 0)"), ("$p[..., 1][:, None]", "(colOf {p} 1)"),
                        ("$s.coefficients[-3]", "(rowFromEnd ({s}).coefficients 2)"),
@@ -565,16 +708,16 @@ def items():
                        ("$x[0].n_points", "(n)"), ("$x[0].n_dims", "(d)"), ("$s.n_dims", "(d != 0)"),
                        ("$s.n_sources", "({s}).nSources"), ("$s.sources", "({s}).sources"),
                        ("$s.transforms", "({s}).transforms"), ("$s.target.points", "({s}).target"),
-                       ("$s.target.norm()", "(genPointCloudNorm ext ({s}).target)"), ("$s.target", "({s}).target"),
+                       ("$s.target", "({s}).target"),
                        ("$s.initial_target_scale", "({s}).initialTargetScale"),
                        ("$s.n_iterations", "({s}).nIterations"), ("$s.max_iterations", "({s}).maxIterations"),
-                       ("sum($l) / $k", "(sumDivL {l} {k})"),
+                       ("sum($l)", "(sumL {l})"),
                        ("PointCloud($x, copy=False)", "{x}"), ("PointCloud($x)", "{x}"),
-                       ("$t.aligned_source().points", "(genAlignedSource HObj.ops {t})"),
+                       ("$t.aligned_source()", "(genAlignedSource HObj.ops {t})"),
                        ("$x.points", "{x}"), ("$x.norm()", "(genPointCloudNorm ext {x})"),
                        ("mean_pointcloud($l)", "(genMeanPointcloud {l})"),
                        ("scale_about_centre($p, $k)", "(scaleAboutCentreH {p} {k})"),
-                       ("np.linalg.norm($a - $b)", "(ext.frob (msub {a} {b}))"),
+                       ("np.linalg.norm($x)", "(ext.frob {x})"),
                        ("AlignmentSimilarity($a, $b, allow_mirror=$m)",
                         "(genSimilarityInit ext HObj.blank {a} {b} %s {m})" % rot_default),
                        ("$s._recursive_procrustes()", "(rec {s})", "bind")],
@@ -594,7 +737,8 @@ def items():
                        ("$t.set_target($x)", "t", "(genSetTarget HObj.ops (genSimilaritySync ext) {t} {x})")],
                  raise_by={"ValueError": "none", "AssertionError": "none"}, **kw)
 
-    mean_rules = R(expr=[("PointCloud(sum($g) / len($l), copy=False)", "(sumDivL {g} (List.length {l}))"), ("$x.points", "{x}"),
+    mean_rules = R(expr=[("PointCloud($x, copy=False)", "{x}"), ("sum($g)", "(sumL {g})"), ("len($l)", "(List.length {l})"),
+                         ("$x.points", "{x}"),
                          ("$a.from_vector($b.as_vector())", "{b}"),       # the same points in the class of the first element
                          ("$l[0]", "(List.headD {l} (fun _ _ => 0))")])
     add("def genMeanPointcloud {n d : Nat} (pointclouds : List (Mat n d)) : Mat n d :=",
@@ -632,7 +776,7 @@ import MenpoModel.Core.PyLoop
 set_option linter.unusedVariables false
 
 namespace MenpoModel.Generated.C07
-open MenpoModel.C07
+open MenpoModel.C07 MenpoModel.C07.Np
 """
 FOOTER = "end MenpoModel.Generated.C07\n"
 
